@@ -34,7 +34,8 @@ def _cm_cases(draw, max_size=10):
     thr = draw(gen.shaped_thresholds(s["pos"] + s["neg"], mag=1e300))
     f32 = draw(st.sampled_from([None, None, None, "float32", "float16"])) if s["mode"] in ("grid", "dyadic") else None
     return dict(s=s, thr=thr, sorted=draw(st.booleans()),
-                via=draw(st.sampled_from(["ctor", "ctor", "labels", "lists", "swap-twice"])), dtype=f32,
+                via=draw(st.sampled_from(["ctor", "ctor", "labels", "labels", "lists", "swap-twice"])), dtype=f32,
+                label_kind=draw(st.sampled_from(["int", "float-ids", "float-tiny", "str", "bool"])),
                 thr_as=draw(st.sampled_from(["array", "array", "list", "F", "f32", "f16", "int"])))
 
 
@@ -49,16 +50,19 @@ def _build(case, sc, ec):
     if case.get("via") == "lists" and s["mode"] != "uint":
         return Scores(list(s["pos"]), list(s["neg"]), **kw)
     if case.get("via") == "labels":
-        labels = np.concatenate([np.ones(len(pos), dtype=int), np.zeros(len(neg), dtype=int)])
+        pl_, nl_ = {"int": (1, 0), "float-ids": (20230001.0, 20230002.0), "float-tiny": (0.0, 1e-9),
+                    "str": ("genuine", "impostor"), "bool": (True, False)}[case.get("label_kind", "int")]
+        labels = np.asarray([pl_] * len(pos) + [nl_] * len(neg)) if len(pos) + len(neg) else np.zeros(0, dtype=int)
         allv = np.concatenate([pos, neg])
         perm = np.argsort(np.sin(np.arange(len(allv)) * 12.9898), kind="stable")
         la, sa = labels[perm], allv[perm]
+        kw = dict(kw, pos_label=pl_)
         if s.get("container") == "series":  # two columns of one frame with a non-positional index
             import pandas as pd
 
             idx = list(range(len(la)))[::-1]
             la, sa = pd.Series(la, index=idx), pd.Series(sa, index=idx)
-        return Scores.from_labels(la, sa, pos_label=1, **kw)
+        return Scores.from_labels(la, sa, **kw)
     if case.get("sorted"):
         return Scores(np.sort(pos), np.sort(neg), is_sorted=True, **kw)
     if case.get("via") == "swap-twice":  # an object handed out by the library
@@ -133,7 +137,7 @@ def check_cm(case):
 def _pw_cases(draw):
     s = draw(gen.score_sets(max_size=8, mag=1e300, easy=False))
     thr = draw(gen.shaped_thresholds(s["pos"] + s["neg"], shapes=gen.SHAPES_NONEMPTY, mag=1e300))
-    lab = draw(st.sampled_from(["int", "str", "bool", "boolF", "bool0", "int52", "float"]))
+    lab = draw(st.sampled_from(["int", "str", "bool", "boolF", "bool0", "int52", "float", "float-ids", "float-tiny"]))
     return dict(s=s, thr=thr, lab=lab, order=draw(st.integers(0, 10**6)),
                 layout=draw(st.sampled_from(["1d", "1d", "2d-C", "2d-F-scores", "2d-F-labels", "2d-T-scores", "2d-F-both"])))
 
@@ -151,7 +155,10 @@ def check_pointwise(case):
                   "bool": (True, False, dict(pos_label=True)),
                   # the positive label is whatever the caller says it is
                   "boolF": (False, True, dict(pos_label=False)), "bool0": (False, True, dict(pos_label=0)),
-                  "int52": (5, 2, dict(pos_label=5)), "float": (0.0, 1.0, dict(pos_label=0.0))}[case["lab"]]
+                  "int52": (5, 2, dict(pos_label=5)), "float": (0.0, 1.0, dict(pos_label=0.0)),
+                  # labels that are different numbers, however close (ids read as floats; 0 vs 1e-9)
+                  "float-ids": (20230001.0, 20230002.0, dict(pos_label=20230001.0)),
+                  "float-tiny": (0.0, 1e-9, dict(pos_label=0))}[case["lab"]]
     labels = [pl] * n + [nl] * m
     scores = list(pos) + list(neg)
     order = np.random.RandomState(case["order"]).permutation(n + m)
@@ -214,6 +221,15 @@ def _big_cases(draw):
     vals = [base + o for o in offs]
     k = draw(st.integers(1, 6))
     thr = [base + o for o in draw(st.lists(st.integers(-5, 5), min_size=k, max_size=k))]
+    shards = draw(st.booleans())
+    if shards:
+        # two sorted shards appended: every out-of-order step spans more than half of the int64 range
+        hi_, lo_ = 2**62 + 2**61, -(2**62) - 2**61
+        pv = sorted(hi_ + o for o in offs[:n // 2]) + sorted(lo_ + o for o in offs[n // 2:n])
+        nv = sorted(hi_ + o for o in offs[n:n + m // 2]) + sorted(lo_ + o for o in offs[n + m // 2:])
+        vals = pv + nv
+        thr = [b_ + o for b_, o in zip([hi_, lo_] * 3, draw(st.lists(st.integers(-5, 5), min_size=k, max_size=k)))]
+        base = -1  # int64 only
     ez = st.sampled_from([0, 0, 3])
     return dict(pos=vals[:n], neg=vals[n:], thr=thr, ep=draw(ez), en=draw(ez),
                 dtype=draw(st.sampled_from(["int64", "int64", "uint64"])) if base > 0 else "int64",
